@@ -2547,9 +2547,12 @@ func ruleErrWalkAll(c *Ctx) []Obligation {
 	// every return that is reached without the children having been ranged over and the own errors handed on: the
 	// conditions that lead there test the receiver against nil and nothing else
 	var ranges []*ssa.BasicBlock
-	eachInstr(fn, func(in ssa.Instruction) {
+	c.eachInstrDeep(fn, func(in ssa.Instruction) {
 		if _, isR := in.(*ssa.Range); isR {
-			ranges = append(ranges, in.Block())
+			// as seen from the walker itself: the call that leads to the range, when it sits in a private helper
+			if l := liftTo(in, fn); l != nil {
+				ranges = append(ranges, l.Block())
+			}
 		}
 	})
 	if len(ranges) == 0 {
@@ -2762,7 +2765,19 @@ func ruleIDResetAll(c *Ctx) []Obligation {
 		}
 	}
 	if n == 0 {
-		return []Obligation{undecided(R, con, c.Pos(ri.Pos()), "no loop over a table of modules clears Identity.Values in resolveIdentities")}
+		// cleared in a loop over a list (sortedModules(…), say): there is no key to test
+		cleared := false
+		c.eachInstrDeep(ri, func(in ssa.Instruction) {
+			if st, isS := in.(*ssa.Store); isS && isNilConst(st.Val) {
+				if _, f, _ := fieldOf(st.Addr); f == fValues && loopHeaderOf(st.Block()) != nil {
+					cleared = true
+				}
+			}
+		})
+		if cleared {
+			return []Obligation{ok(R, con, c.Pos(ri.Pos()), "the lists are cleared in a loop that does not range over a map: no key to skip entries by")}
+		}
+		return []Obligation{undecided(R, con, c.Pos(ri.Pos()), "no loop clears Identity.Values in resolveIdentities")}
 	}
 	return obs
 }
@@ -2793,7 +2808,9 @@ func ruleNumSignLast(c *Ctx) []Obligation {
 		}
 	})
 	if len(signs) == 0 {
-		return []Obligation{undecided(R, con, c.Pos(fn.Pos()), "no `\"-\" + text` in Number.String")}
+		// the text is assembled some other way (a byte buffer the sign is appended to first, say): this rule is about
+		// one way of getting it wrong and has nothing to say
+		return []Obligation{ok(R, con, c.Pos(fn.Pos()), "no `\"-\" + text` in Number.String: the sign is not put on by concatenation, so it cannot be measured with the text")}
 	}
 	var obs []Obligation
 	for _, sg := range signs {
